@@ -24,6 +24,8 @@ CLAIMS = {
             note="As C05: sequential consistency, hook-point granularity; free-running stress runs add finer interleavings probabilistically."),
  "C20": dict(engine="watch", design="3/C20", text="TLC enumerates every history (bounded depth) of file-system edits over a small project with sibling folders sharing a name prefix, non-source and non-UTF-8 files and schema edits, with the debounced events each edit produces; the transcription of watch.rs/source_files.rs leaves the property only through named deviations; every transition is replayed on the real code (real FS edits, synthesised DebouncedEvents through the real categorisation and update_sources) and the live database's artifacts/diagnostics are compared with a fresh CompilerState; TLC judges every recorded history.",
             note="The mapping from edits to debounced notify events is an assumption table (NotifyModel); the real inotify watcher/debouncer is not run. Two unrepaired genuine defects are listed in known_findings.json (watcher terminated by a non-UTF-8 file and by schema removal)."),
+ "C21": dict(engine="lsp", design="3/C21", text="TLC enumerates every bounded history of didOpen/didChange/didClose, on-disk edits (with their watcher batch), validations, garbage collections and requests (semantic tokens, formatting, hover, go-to-definition) over two files and four content classes; every history ending in an observation is replayed on a real LspState through the real notification/request handlers, and after every observation a freshly started LspState on the same disk with the same open buffers is asked the same thing; TLC requires every pair of answers to be equal.",
+            note="Disk edits reach the server as the NotifyModel's debounced batch (the tokio loop, the real watcher and the debounce timer are not run); hover/definition at one fixed position; the model's own contribution is the history enumeration, the equality is differential."),
 }
 
 checks = []
